@@ -116,6 +116,14 @@ def run(tier, seed, replay=None):
     run = Run("C16", tier, seed, RULE)
     drv = Driver()
     exp = {}
+
+    def still_fails(c):
+        probe = Run("C16", tier, seed, RULE)
+        res = run_case(probe, Driver(), dict(c), {})
+        if res is not None:
+            judge(probe, c, res)
+        return any(f.kind == "impl-vs-spec" for f in probe.failures)
+    run.shrinker = still_fails
     from harness.common import corpus_cases
     cases = [replay["case"]] if replay else corpus_cases("C16") + \
         [rc.make_case(run.rng, tier, damage=(i % 5 != 0)) for i in range(200 if tier == "quick" else 1500)] + \
